@@ -255,3 +255,53 @@ def with_conc(fn):
 
 for _p in CONC_PROPS:
     REGISTRY[_p] = with_conc(REGISTRY[_p])
+
+# the real task runner on every case of TaskExec.tla (real processes): cancel cases -> C04, failure cases -> C08
+EXEC_PROPS = {"C04": "C04_RealCancel", "C08": "C08_RealVerdict"}
+
+
+def with_exec(fn):
+    def wrapped(pid, tier, replay):
+        rc = fn(pid, tier, replay)
+        if replay or rc == 2:
+            return rc
+        t0 = time.time()
+        res = domain.exec_engine(tier)
+        mine = [r for r in res["rows"] if (r["cancelAt"] > 0) == (pid == "C04")]
+        bad = [(n, r) for n, r in res["viols"] if n == EXEC_PROPS[pid]]
+        ep = os.path.join(EVID, pid + ".json")
+        ev = json.load(open(ep))
+        ev["coverage"]["real_task_runner"] = {"cases_run": len(mine), "failed": len(bad), "sample": mine[:1],
+                                              "how": "TaskExec.tla enumerates the cases of a two-line task (line outcomes, allow_failure, cancel while "
+                                                     "line 1/2 runs, dependent task); each is run with real processes by the real TaskRunner under the real "
+                                                     "PipelineRunner and the reported result is validated by TLC against Expected (RowsExec.tla)"}
+        ev["violations"] = ev.get("violations", 0) + len(bad)
+        ev["wall_s"] = round(ev.get("wall_s", 0) + (time.time() - t0), 2)
+        json.dump(ev, open(ep, "w"), indent=1)
+        n0 = len([f for f in os.listdir(os.path.join(EVID, "replay")) if f.startswith(pid + "-")]) if os.path.isdir(os.path.join(EVID, "replay")) else 0
+        seen = set()
+        for name, r in bad:
+            case = "allow=%s o1=%s o2=%s cancelAt=%s dep=%s" % (r["allow"], r["o1"], r["o2"], r["cancelAt"], r["dep"])
+            desc = "formula=%s %s reported: status=%s errored=%s canceled=%s job completed=%s canceled=%s lastErr=%s ran=%s/%s next=%s" % (
+                name, case, r["status"], r["errored"], r["canceled"], r["jobCompleted"], r["jobCanceled"], r["lastErr"], r["ran1"], r["ran2"], r["nextRan"])
+            if case in seen:
+                continue
+            seen.add(case)
+            k = known_match(pid, desc)
+            if k:
+                print("KNOWN-FINDING: property=%s %s" % (pid, k.get("description", desc)))
+                continue
+            if len(seen) > 6:
+                continue
+            os.makedirs(os.path.join(EVID, "replay"), exist_ok=True)
+            path = os.path.join(EVID, "replay", "%s-%d.json" % (pid, n0 + len(seen)))
+            json.dump({"property": pid, "engine": "exec", "formula": name, "row": r, "desc": desc}, open(path, "w"), indent=1)
+            print("VIOLATION property=%s replay=%s" % (pid, path))
+            log("  " + desc[:300])
+            rc = 1
+        return rc
+    return wrapped
+
+
+for _p in EXEC_PROPS:
+    REGISTRY[_p] = with_exec(REGISTRY[_p])
